@@ -1115,6 +1115,7 @@ func translateFunc(f *File, fd *ast.FuncDecl, tg transTarget, tab *transTables) 
 		binders = append(binders, "("+leanIdent(e[0])+" : "+pt.lean+")")
 	}
 	body, results := fd.Body, fd.Type.Results
+	var litNode ast.Node
 	if tg.after != "" {
 		k := -1
 		for i, st := range fd.Body.List {
@@ -1145,6 +1146,7 @@ func translateFunc(f *File, fd *ast.FuncDecl, tg transTarget, tab *transTables) 
 			t.bad(fd, "function literal %d not found", tg.lit)
 			body = &ast.BlockStmt{}
 		} else {
+			litNode = lit
 			addParams(lit.Type.Params)
 			body, results = lit.Body, lit.Type.Results
 		}
@@ -1208,7 +1210,11 @@ func translateFunc(f *File, fd *ast.FuncDecl, tg transTarget, tab *transTables) 
 		c = tctx{ret: func(e string) string { return "some " + paren(e) }, panic: "none", rty: "Option " + paren(rty)}
 	}
 	term := t.block(body.List, c, "")
-	src := strings.ReplaceAll(goSource(f, fd), "-/", "- /")
+	var srcNode ast.Node = fd
+	if litNode != nil {
+		srcNode = litNode
+	}
+	src := strings.ReplaceAll(goSource(f, srcNode), "-/", "- /")
 	var b strings.Builder
 	fmt.Fprintf(&b, "/- %s, func %s:\n\n%s\n-/\n", tg.file, tg.fn, src)
 	if len(t.probs) > 0 {
@@ -1227,7 +1233,7 @@ func orUnit(s string) string {
 }
 
 // goSource prints the declaration with its comments, tabs as two blanks.
-func goSource(f *File, fd *ast.FuncDecl) string {
+func goSource(f *File, fd ast.Node) string {
 	start := f.fset.Position(fd.Pos()).Offset
 	end := f.fset.Position(fd.End()).Offset
 	text, err := os.ReadFile(filepath.Join(*repo, f.path))
